@@ -42,6 +42,8 @@ pub struct PoolRun {
     pub analysed: Vec<(usize, u64)>,
     /// watchdog fired while waiting for the drain (inconclusive, not a violation)
     pub drain_timeout: bool,
+    /// a worker thread panicked during the run (message)
+    pub worker_panic: Option<String>,
 }
 
 /// pools use process-wide hooks: one pool run at a time
@@ -76,6 +78,7 @@ pub fn run_pool(kind: PoolKind, frames: &[Vec<u8>], cfg: &PoolCfg, filter: Optio
         }
     };
     let mut run = PoolRun::default();
+    let panics_before = crate::engine::WORKER_PANICS.load(Ordering::SeqCst);
     let deadline = Instant::now() + Duration::from_secs(60);
     macro_rules! drive_pool {
         ($pool:expr, $rx:expr, $render:expr) => {{
@@ -107,6 +110,11 @@ pub fn run_pool(kind: PoolKind, frames: &[Vec<u8>], cfg: &PoolCfg, filter: Optio
             // wait until every queued packet has started
             let mut last_progress = (started.load(Ordering::SeqCst), Instant::now());
             while started.load(Ordering::SeqCst) < nq {
+                if crate::engine::WORKER_PANICS.load(Ordering::SeqCst) != panics_before {
+                    // a worker died: its queue will never drain
+                    run.worker_panic = crate::engine::LAST_WORKER_PANIC.lock().ok().and_then(|g| g.clone());
+                    break;
+                }
                 if Instant::now() > deadline {
                     run.drain_timeout = true;
                     break;
@@ -140,6 +148,9 @@ pub fn run_pool(kind: PoolKind, frames: &[Vec<u8>], cfg: &PoolCfg, filter: Optio
                 }
             }
             run.queued = queued;
+            if run.worker_panic.is_none() && crate::engine::WORKER_PANICS.load(Ordering::SeqCst) != panics_before {
+                run.worker_panic = crate::engine::LAST_WORKER_PANIC.lock().ok().and_then(|g| g.clone());
+            }
         }};
     }
     match kind {
